@@ -62,13 +62,18 @@ func sortedKeys[V any](m map[string]V) []string {
 
 // compareAudit compares a record with the reference lineage, recursively.
 // where: human-readable location. top: this is the record of the file itself.
-func compareAudit(r *AuditRec, lin *Lin, ex *Expect, insts map[string]*simrt.OpInst, where string, top string) (string, string) {
+func compareAudit(r *AuditRec, lin *Lin, ex *Expect, insts map[string]*simrt.OpInst, where string, top string, self string) (string, string) {
 	if r == nil {
 		return "audit-missing-record", where + ": record is null"
 	}
 	if lin.Source {
 		if r.ProcessName != "" || len(r.Upstream) != 0 || r.Command != "" {
 			return "audit-source", fmt.Sprintf("%s: a workflow source file carries a task record (process %q, command %q)", where, r.ProcessName, r.Command)
+		}
+		for k, v := range r.Tags {
+			if !ex.TagKeys[k] || v != TagValue(self) {
+				return "audit-tags-extra", fmt.Sprintf("%s: tag %s=%s does not belong to the record of source file %s", where, k, v, self)
+			}
 		}
 		return "", ""
 	}
@@ -88,9 +93,19 @@ func compareAudit(r *AuditRec, lin *Lin, ex *Expect, insts map[string]*simrt.OpI
 			return "audit-tags-lost", fmt.Sprintf("%s: tag %s=%s attached upstream is missing (record has %v)", where, k, v, r.Tags)
 		}
 	}
-	for k := range r.Tags {
-		if _, ok := lin.Tags[k]; !ok && !ex.TagKeys[k] {
-			return "audit-tags-extra", fmt.Sprintf("%s: unexpected tag %s=%s", where, k, r.Tags[k])
+	// any other tag must be one a tagging component attaches to THIS record:
+	// taggers derive the value from the path of the item they tag, and the
+	// items that carry this record are the task's own outputs (or the source file)
+	// ... or to an ancestor's files (a sibling consumer may have seen, and a
+	// task then inherits, a tag attached to its input concurrently)
+	own := map[string]bool{}
+	allowedTagValues(lin, self, own, 0)
+	for k, v := range r.Tags {
+		if _, ok := lin.Tags[k]; ok {
+			continue
+		}
+		if !ex.TagKeys[k] || !own[v] {
+			return "audit-tags-extra", fmt.Sprintf("%s: tag %s=%s does not belong to this record (neither inherited from its inputs nor attachable to one of its own or its ancestors' files %v)", where, k, v, sortedKeys(own))
 		}
 	}
 	// command: exactly what the shell received
@@ -116,11 +131,29 @@ func compareAudit(r *AuditRec, lin *Lin, ex *Expect, insts map[string]*simrt.OpI
 		return "audit-upstream-keys", fmt.Sprintf("%s: Upstream keys %v, the task's inputs were %v", where, gotK, wantK)
 	}
 	for _, k := range wantK {
-		if c, d := compareAudit(r.Upstream[k], lin.Upstream[k], ex, insts, where+" > Upstream["+k+"]", ""); c != "" {
+		if c, d := compareAudit(r.Upstream[k], lin.Upstream[k], ex, insts, where+" > Upstream["+k+"]", "", k); c != "" {
 			return c, d
 		}
 	}
 	return "", ""
+}
+
+// allowedTagValues collects the values tagging components may attach to the
+// files of this record and of all its ancestors.
+func allowedTagValues(lin *Lin, self string, into map[string]bool, depth int) {
+	if lin == nil || depth > 30 {
+		return
+	}
+	if lin.Source {
+		into[TagValue(self)] = true
+		return
+	}
+	for _, p := range lin.OutFiles {
+		into[TagValue(p)] = true
+	}
+	for k, up := range lin.Upstream {
+		allowedTagValues(up, k, into, depth+1)
+	}
 }
 
 func instsByKey(incs ...*Inc) map[string]*simrt.OpInst {
@@ -152,7 +185,7 @@ func auditOracle(root *simrt.Inode, ex *Expect, insts map[string]*simrt.OpInst) 
 		if err != nil {
 			return Viol("audit-unreadable", "", "%v", err)
 		}
-		if c, d := compareAudit(r, lin, ex, insts, strings.TrimPrefix(p, "/work/")+".audit.json", p); c != "" {
+		if c, d := compareAudit(r, lin, ex, insts, strings.TrimPrefix(p, "/work/")+".audit.json", p, strings.TrimPrefix(p, "/work/")); c != "" {
 			return Viol(c, "", "%s", d)
 		}
 	}
@@ -169,8 +202,11 @@ func init() {
 	Register(&Check{ID: "C10", Level: "exploration",
 		Rule: "one case = one generated workflow (multi-input, multi-output, fan-in/out, parameters, MapToTags taggers, StreamToSubStream + joined in-ports, Go-function tasks) under one tape-chosen schedule. For EVERY finalized output the audit file is parsed (strict JSON decoding into the record type) and compared field by field, recursively down to the source files, with the lineage tree of the independent reference: ProcessName, Params, OutFiles, Upstream keys, inherited tags (superset; extras only from taggers), Command = the words the simulated shell actually received, StartTime<=FinishTime, duration>=0. distinct = event-log hash; non-trivial = >=2 tasks and >=1 non-default choice",
 		Run: func(c *Case) Verdict {
-			if c.Tape.Choose(simrt.StGen, 6, 0) == 1 {
+			switch c.Tape.Choose(simrt.StGen, 8, 0) {
+			case 1:
 				return lazyTagCase(c)
+			case 2:
+				return globDepCase(c)
 			}
 			w := Generate(c.Tape, tierProfile(profC10, c.Tier))
 			c.Sample = sample(w)
@@ -450,4 +486,39 @@ func lazyTagCase(c *Case) Verdict {
 		}
 	}
 	return OK()
+}
+
+// globDepCase: a dependent FileGlobber picks up the outputs of an upstream
+// process; records of files derived from the globbed files must reach back
+// through the globbed files to their producers.
+func globDepCase(c *Case) Verdict {
+	t := c.Tape
+	w := &WF{Name: "wf", Sources: map[string]string{}, MaxTasks: 1 + t.Choose(simrt.StGen, 3, 0), Bufsize: bufsizeOf(t)}
+	n := 1 + t.Choose(simrt.StGen, 3, 0)
+	var vals, files []string
+	for i := 0; i < n; i++ {
+		vals = append(vals, fmt.Sprintf("v%d", i))
+		files = append(files, fmt.Sprintf("gen_v%d.dat", i))
+	}
+	src := srcNode(w, "src0", 1, "")
+	_ = src
+	gen := addNode(w, Node{Name: "gen", Kind: KProc, Cores: 1,
+		Params: []ParamSpec{{Name: "x", Vals: vals}},
+		Outs:   []OutSpec{{Name: "o0", Pattern: "gen_{p:x}.dat"}}})
+	sort.Strings(files)
+	g := addNode(w, Node{Name: "glob", Kind: KGlobber, Globs: []string{"gen_*.dat"}, Files: files,
+		Ins: []InSpec{{Name: "in_dep", From: []Edge{{gen, "o0"}}}}, Outs: []OutSpec{{Name: "out"}}})
+	u := oneToOne(w, "use", Edge{g, "out"})
+	if t.Choose(simrt.StGen, 2, 0) == 1 {
+		oneToOne(w, "use2", Edge{u, "o0"})
+	}
+	oneToOne(w, "other", Edge{src, "out"})
+	c.Sample = "dependent globber: " + sample(w)
+	ex := Eval(w)
+	inc := RunInc(w, c.Tape, nil, 0, IncOpts{KillAt: -1, Strategy: strategyOf(c.Tape), Trace: c.Trace})
+	c.Absorb(inc)
+	if v := flowOracle(inc, ex); v.Status != "ok" {
+		return foreign(v)
+	}
+	return auditOracle(inc.Sim.FS.Root, ex, instsByKey(inc))
 }
